@@ -97,6 +97,10 @@ func Install() {
 	zz.OrmInvariant(TBatchSupply, BatchSupplyOK)
 	zz.OrmInvariant(TBasketBalance, BasketBalanceOK)
 	zz.OrmInvariant(TSellOrder, SellOrderOK)
+	// sum invariants are instantiated as soon as the rows they relate have been read
+	zz.OrmOnTouch(TBatchBalance, AssumeSums)
+	zz.OrmOnTouch(TBatchSupply, AssumeSums)
+	zz.OrmOnTouch(TBasketBalance, AssumeSums)
 }
 
 // AssumeSums instantiates the sum invariants on the rows the step has touched: for every
